@@ -189,8 +189,8 @@ class Session:
         if op == "unmarshal":
             try:
                 x = self.V(step["x"])
-            except ValueError as e:
-                if str(e) != "rejected":
+            except (ValueError, StopIteration) as e:
+                if isinstance(e, ValueError) and str(e) != "rejected":
                     raise
                 # the input itself is an instance a (generated) user constructor refuses to build
                 self.probes["input_rejected_by_user_constructor"] += 1
@@ -327,6 +327,15 @@ class Session:
             # new, equal-but-not-identical typing objects from now on
             if self.world:
                 self.world._tcache.clear()
+            if getattr(self, "drop_refs_on_clear", False):
+                # let the old annotation objects really die (a restart keeps nothing alive either):
+                # whatever is keyed by their identity must not outlive them
+                import gc
+
+                self.results.clear()
+                self.inputs.clear()
+                self.outcomes.clear()
+                gc.collect()
             fired = True
         elif op == "shrink":
             ok = seams.shrink_lru(step["name"], int(step["cap"]))
